@@ -17,20 +17,22 @@ def primed_bc(model, name, dir_, data, prm):
     equal), another interior state, the other side.  A boundary state is a function of (side, interior state, parameters) and of
     nothing the model object remembers from earlier calls"""
     with np.errstate(all="ignore"):
+        # ONE dictionary object, rewritten in place between the calls, as a parameter sweep does (and as the space operator does:
+        # it hands the user's own dictionary to the model at every evaluation)
         for key, val in list(prm.items()):
             if key == "type":
                 continue
-            sib = dict(prm)
             if isinstance(val, (int, float)):
-                sib[key] = val * 1.07 + (0.01 if val == 0 else 0.0)
+                prm[key] = val * 1.07 + (0.01 if val == 0 else 0.0)
             elif isinstance(val, (list, tuple)):
-                sib[key] = [v * 1.07 for v in val]
+                prm[key] = [v * 1.07 for v in val]
             else:
                 continue
             try:
-                model.namedBC(name, dir_, [np.array(d, dtype=float, copy=True) for d in data], sib)
+                model.namedBC(name, dir_, [np.array(d, dtype=float, copy=True) for d in data], prm)
             except Exception:
                 pass
+            prm[key] = val
         try:
             model.namedBC(name, dir_, [np.array(d, dtype=float, copy=True) * 1.05 for d in data], dict(prm))
             model.namedBC(name, -dir_ if np.isscalar(dir_) else -np.asarray(dir_), [np.array(d, dtype=float, copy=True) for d in data], dict(prm))
